@@ -251,6 +251,8 @@ def _expand_by_interpretation(ctx, f):
     # the ORDER of the whitelist matters to an implementation that keeps candidates in arrival order: every order of a few three-barcode whitelists whose
     # members are at distance 1, 1 and 2 of one observed string
     ordered = [list(p_) for base in (('CC', 'AC', 'CA'), ('GG', 'AG', 'GA'), ('AC', 'CA', 'NN')) for p_ in itertools.permutations(base)]
+    # whitelists of mixed barcode lengths, the shorter barcode first and last (what is derived from one barcode may not be applied to all)
+    ordered += [['AA', 'ACG'], ['ACG', 'AA'], ['C', 'GT', 'GA']]
     params = [a.arg for a in f.args.args]
     n = 0
     try:
@@ -295,9 +297,8 @@ def _expand_by_interpretation(ctx, f):
                             continue
                         got[c.get('barcode')] = (c.get('originBarcode'), d, c.get('index'))
                     want = {}
-                    for o in itertools.product('ACGTN', repeat=2):
-                        o = ''.join(o)
-                        ds = sorted((sum(1 for x, y in zip(o, b) if x != y), b) for b in wl)
+                    for o in [''.join(t_) for L_ in sorted({len(b) for b in wl}) for t_ in itertools.product('ACGTN', repeat=L_)]:
+                        ds = sorted((sum(1 for x, y in zip(o, b) if x != y), b) for b in wl if len(b) == len(o))
                         if ds[0][0] == 0 or ds[0][0] > k:
                             continue
                         if len(ds) > 1 and ds[1][0] == ds[0][0]:
